@@ -846,10 +846,110 @@ func PiecewiseFromSwitch(info *types.Info, sw *ast.SwitchStmt, v types.Object, d
 	}}
 	rest := domain
 	var out []Piece
+	stripConv := func(e ast.Expr) ast.Expr {
+		e = ast.Unparen(e)
+		if call, ok := e.(*ast.CallExpr); ok && len(call.Args) == 1 && info.Types[call.Fun].IsType() {
+			return ast.Unparen(call.Args[0])
+		}
+		return e
+	}
+	// value: e as a function of v: constant, v, v ± c
+	value := func(p *Piece, e ast.Expr) string {
+		rhs := stripConv(e)
+		if cv, isC := ConstInt(info, rhs); isC {
+			p.Const, p.Add = true, cv
+			return ""
+		}
+		if id, isID := rhs.(*ast.Ident); isID && info.Uses[id] == v {
+			return ""
+		}
+		if be, isB := rhs.(*ast.BinaryExpr); isB && (be.Op == token.ADD || be.Op == token.SUB) {
+			xid, okx := ast.Unparen(be.X).(*ast.Ident)
+			cv, isC := ConstInt(info, be.Y)
+			if okx && info.Uses[xid] == v && isC {
+				if be.Op == token.SUB {
+					cv = -cv
+				}
+				p.Add = cv
+				return ""
+			}
+			// c + v
+			yid, oky := ast.Unparen(be.Y).(*ast.Ident)
+			cx, isCx := ConstInt(info, be.X)
+			if oky && info.Uses[yid] == v && isCx && be.Op == token.ADD {
+				p.Add = cx
+				return ""
+			}
+		}
+		return "non-affine value " + ExprString(e)
+	}
+	apply := func(cc *ast.CaseClause, dom IvSet) string {
+		p := Piece{Dom: dom}
+		switch len(cc.Body) {
+		case 0:
+			// identity
+		case 1:
+			switch b := cc.Body[0].(type) {
+			case *ast.BranchStmt:
+				if b.Tok != token.CONTINUE {
+					return "unsupported branch in case"
+				}
+				p.Skip = true
+			case *ast.ReturnStmt:
+				// the switch is the body of a helper: `return value` or `return value, ok`
+				switch len(b.Results) {
+				case 1:
+					if why := value(&p, b.Results[0]); why != "" {
+						return why
+					}
+				case 2:
+					okc, isB := ast.Unparen(b.Results[1]).(*ast.Ident)
+					if !isB || (okc.Name != "true" && okc.Name != "false") {
+						return "second result is not a boolean constant"
+					}
+					if okc.Name == "false" {
+						p.Skip = true
+					} else if why := value(&p, b.Results[0]); why != "" {
+						return why
+					}
+				default:
+					return "unsupported return in case"
+				}
+			case *ast.AssignStmt:
+				id, ok := b.Lhs[0].(*ast.Ident)
+				if !ok || info.Uses[id] != v || len(b.Rhs) != 1 {
+					return "assignment to another variable"
+				}
+				rhs := ast.Unparen(b.Rhs[0])
+				if b.Tok == token.ASSIGN {
+					if why := value(&p, rhs); why != "" {
+						return why
+					}
+				} else if cv, isC := ConstInt(info, rhs); isC && (b.Tok == token.ADD_ASSIGN || b.Tok == token.SUB_ASSIGN) {
+					if b.Tok == token.SUB_ASSIGN {
+						cv = -cv
+					}
+					p.Add = cv
+				} else {
+					return "non-affine assignment"
+				}
+			default:
+				return "unsupported statement in case"
+			}
+		default:
+			return "multi-statement case"
+		}
+		if !dom.Empty() {
+			out = append(out, p)
+		}
+		return ""
+	}
+	var deflt *ast.CaseClause
 	for _, cl := range sw.Body.List {
 		cc := cl.(*ast.CaseClause)
 		if cc.List == nil {
-			return nil, "default clause not supported"
+			deflt = cc
+			continue
 		}
 		set := IvSet{}
 		for _, ce := range cc.List {
@@ -861,54 +961,15 @@ func PiecewiseFromSwitch(info *types.Info, sw *ast.SwitchStmt, v types.Object, d
 		}
 		dom := rest.Intersect(set)
 		rest = rest.Minus(set)
-		p := Piece{Dom: dom}
-		switch len(cc.Body) {
-		case 0:
-			// identity
-		case 1:
-			switch b := cc.Body[0].(type) {
-			case *ast.BranchStmt:
-				if b.Tok != token.CONTINUE {
-					return nil, "unsupported branch in case"
-				}
-				p.Skip = true
-			case *ast.AssignStmt:
-				id, ok := b.Lhs[0].(*ast.Ident)
-				if !ok || info.Uses[id] != v || len(b.Rhs) != 1 {
-					return nil, "assignment to another variable"
-				}
-				rhs := ast.Unparen(b.Rhs[0])
-				if cv, isC := ConstInt(info, rhs); isC && b.Tok == token.ASSIGN {
-					p.Const, p.Add = true, cv
-				} else if be, isB := rhs.(*ast.BinaryExpr); isB && b.Tok == token.ASSIGN && (be.Op == token.ADD || be.Op == token.SUB) {
-					xid, okx := ast.Unparen(be.X).(*ast.Ident)
-					cv, isC := ConstInt(info, be.Y)
-					if !okx || info.Uses[xid] != v || !isC {
-						return nil, "non-affine assignment"
-					}
-					if be.Op == token.SUB {
-						cv = -cv
-					}
-					p.Add = cv
-				} else if cv, isC := ConstInt(info, rhs); isC && (b.Tok == token.ADD_ASSIGN || b.Tok == token.SUB_ASSIGN) {
-					if b.Tok == token.SUB_ASSIGN {
-						cv = -cv
-					}
-					p.Add = cv
-				} else {
-					return nil, "non-affine assignment"
-				}
-			default:
-				return nil, "unsupported statement in case"
-			}
-		default:
-			return nil, "multi-statement case"
-		}
-		if !dom.Empty() {
-			out = append(out, p)
+		if why := apply(cc, dom); why != "" {
+			return nil, why
 		}
 	}
-	if !rest.Empty() {
+	if deflt != nil {
+		if why := apply(deflt, rest); why != "" {
+			return nil, why
+		}
+	} else if !rest.Empty() {
 		out = append(out, Piece{Dom: rest})
 	}
 	return out, ""
